@@ -263,11 +263,31 @@ def run(res):
             failures.append((sc, r, v))
     if envfail * 3 > len(scs):
         raise vlib.CheckError("%d of %d failover scenarios could not start or re-stabilise (environment)" % (envfail, len(scs)))
-    for sc, r, v in failures[:5]:
-        kf = vlib.match_known(PID, {"kind": "failover"})
-        if kf:
-            res.known_finding(kf["description"])
-            continue
+    # see checks/c03.py: a failure of a whole-cluster scenario is reported when one of three re-runs fails again
+    confirmed, unrepeated = [], []
+    for sc, r, v in failures[:8]:
+        again = None
+        for attempt in range(3):
+            s2 = {kk: vv for kk, vv in sc.items() if kk != "_d40"}
+            r2 = memberlib.run_membership([s2])[s2["id"]]
+            if r2.get("env", {}).get("error") or r2.get("env", {}).get("flapped") or len(r2["obs"]) < len(s2["ops"]):
+                continue
+            if "_two" in s2 and kf40:
+                ks = colocated_before_loss(s2, r2["obs"])
+                if ks:
+                    s2["_d40"] = ks
+            v2 = judge(s2, r2["obs"])
+            if v2 and v2[0] != "env":
+                again = (s2, r2, v2)
+                break
+        if again:
+            confirmed.append(again)
+        else:
+            unrepeated.append({"scenario_id": sc["id"], "cluster": sc["cluster"], "verdict": v[1], "failed_step": v[0]})
+    res.coverage["unrepeated_failures"] = unrepeated
+    for u in unrepeated:
+        vlib.log("[c02] note: scenario %s failed once (%s) and passed 3 re-runs; not reported" % (u["scenario_id"], u["verdict"][:120]))
+    for sc, r, v in confirmed[:5]:
         k = sc["ops"][v[0]].get("k")
         mini = [o for o in sc["ops"] if o.get("k") == k or o["op"] in ("stop", "waitstable")]
         res.violation({"kind": "impl-violates-property", "cluster": sc["cluster"], "scenario": {"ops": sc["ops"]}, "ops_on_failing_key": mini,
